@@ -660,4 +660,198 @@ example : 0 + 1 ∈ getCpuList Generated.table { xmin := 0, xmax := 1/2, ymin :=
     (by norm_num) (by norm_num) (by norm_num) 0 0 0 0 (by omega) (by simp) (by simpa using hk)
   all_goals norm_num
 
+/-! ### the bounding box computed from sampled cell centres (`hilbert_cpu_list`) -/
+
+theorem getLast_filter_range (P : Nat → Bool) : ∀ (n hi : Nat), ((List.range n).filter P).getLast? = some hi →
+    hi < n ∧ P hi = true ∧ ∀ j, hi < j → j < n → P j = false := by
+  intro n
+  induction n with
+  | zero => intro hi h; simp at h
+  | succ n ih =>
+    intro hi h
+    rw [List.range_succ, List.filter_append] at h
+    by_cases hp : P n = true
+    · have e : List.filter P [n] = [n] := by simp [hp]
+      rw [e, List.getLast?_concat] at h
+      injection h with h
+      subst h
+      exact ⟨by omega, hp, fun j h1 h2 => by omega⟩
+    · have e : List.filter P [n] = [] := by simp [hp]
+      rw [e, List.append_nil] at h
+      obtain ⟨h1, h2, h3⟩ := ih hi h
+      refine ⟨by omega, h2, fun j hj hjn => ?_⟩
+      by_cases hjn' : j = n
+      · subst hjn'; simpa using hp
+      · exact h3 j hj (by omega)
+
+theorem head_filter_range (P : Nat → Bool) : ∀ (n lo : Nat), ((List.range n).filter P).head? = some lo →
+    lo < n ∧ P lo = true ∧ ∀ j, j < lo → P j = false := by
+  intro n
+  induction n with
+  | zero => intro lo h; simp at h
+  | succ n ih =>
+    intro lo h
+    rw [List.range_succ, List.filter_append, List.head?_append] at h
+    cases hh : ((List.range n).filter P).head? with
+    | some x =>
+      rw [hh] at h
+      simp at h
+      subst h
+      obtain ⟨h1, h2, h3⟩ := ih x hh
+      exact ⟨by omega, h2, h3⟩
+    | none =>
+      rw [hh] at h
+      have hnil : (List.range n).filter P = [] := by simpa using hh
+      by_cases hp : P n = true
+      · simp [hp] at h
+        subst h
+        refine ⟨by omega, hp, fun j hj => ?_⟩
+        have : j ∉ (List.range n).filter P := by rw [hnil]; simp
+        simp only [List.mem_filter, List.mem_range, not_and] at this
+        simpa using this hj
+      · simp [hp] at h
+
+/-- the selection on one axis is an interval: with two accepted points it accepts everything between them -/
+def Convex (S : Rat → Bool) : Prop := ∀ a b c : Rat, a ≤ c → c ≤ b → S a = true → S b = true → S c = true
+
+theorem axisBox_sound (S : Rat → Bool) (hS : Convex S) (boxSize : Rat) (hb : 0 < boxSize) (levelmax : Nat)
+    (c : Rat) (hc0 : 0 ≤ c) (hc1 : c ≤ boxSize) (hSc : S c = true)
+    (hsample : ∃ i : Nat, i < 2 ^ (min levelmax 18) ∧ S (boxSize / (2 * ((2 ^ (min levelmax 18) : Nat) : Rat)) * (2 * (i : Rat) + 1)) = true)
+    (hgrid : levelmax ≤ 18 → ∃ m : Nat, c = boxSize / (2 * ((2 ^ (min levelmax 18) : Nat) : Rat)) * (m : Rat)) :
+    (axisBox S boxSize levelmax).1 ≤ c / boxSize ∧ c / boxSize ≤ (axisBox S boxSize levelmax).2 := by
+  unfold axisBox
+  simp only
+  generalize hN : (2 ^ (min levelmax 18) : Nat) = N at *
+  have hNpos : 0 < N := by rw [← hN]; exact Nat.pow_pos (by decide)
+  have hNq : (0 : Rat) < (N : Rat) := by exact_mod_cast hNpos
+  set half : Rat := boxSize / (2 * (N : Rat)) with hhalf
+  have hhpos : 0 < half := by rw [hhalf]; positivity
+  have hbox : boxSize = half * (2 * (N : Rat)) := by rw [hhalf]; field_simp
+  set P : Nat → Bool := fun i => S (half * (2 * (i : Rat) + 1)) with hP
+  obtain ⟨i0, hi0, hSi0⟩ := hsample
+  have hmem : i0 ∈ (List.range N).filter P := by
+    simp only [List.mem_filter, List.mem_range]; exact ⟨hi0, hSi0⟩
+  cases hlo : ((List.range N).filter P).head? with
+  | none => rw [List.head?_eq_none_iff] at hlo; rw [hlo] at hmem; simp at hmem
+  | some lo =>
+    cases hhi : ((List.range N).filter P).getLast? with
+    | none => rw [List.getLast?_eq_none_iff] at hhi; rw [hhi] at hmem; simp at hmem
+    | some hi =>
+      simp only
+      obtain ⟨hlo1, hlo2, hlo3⟩ := head_filter_range P N lo hlo
+      obtain ⟨hhi1, hhi2, hhi3⟩ := getLast_filter_range P N hi hhi
+      have hdiv0 : 0 ≤ c / boxSize := div_nonneg hc0 hb.le
+      have hdiv1 : c / boxSize ≤ 1 := by rw [div_le_one hb]; exact hc1
+      have centre_lt : ∀ j k : Nat, j < k → half * (2 * (j : Rat) + 1) < half * (2 * (k : Rat) + 1) := by
+        intro j k hjk
+        have : (j : Rat) < (k : Rat) := by exact_mod_cast hjk
+        nlinarith
+      constructor
+      · apply max_le _ hdiv0
+        rw [div_le_div_iff_of_pos_right hb]
+        by_contra hcon
+        rw [not_le] at hcon
+        by_cases hlm : levelmax ≤ 18
+        · -- sampled grid = finest grid: c is a multiple of half
+          rw [if_pos hlm] at hcon
+          obtain ⟨m, hm⟩ := hgrid hlm
+          have hm2 : (m : Rat) < 2 * (lo : Rat) := by
+            have : half * (m : Rat) < half * (2 * (lo : Rat)) := by rw [← hm]; linarith
+            exact lt_of_mul_lt_mul_left this hhpos.le
+          have hm2' : m < 2 * lo := by exact_mod_cast hm2
+          have hk : m / 2 < lo := by omega
+          have hck : c ≤ half * (2 * ((m / 2 : Nat) : Rat) + 1) := by
+            rw [hm]
+            apply mul_le_mul_of_nonneg_left _ hhpos.le
+            have : m ≤ 2 * (m / 2) + 1 := by omega
+            exact_mod_cast this
+          have hkl := centre_lt (m / 2) lo hk
+          have : P (m / 2) = true := hS c _ _ hck hkl.le hSc hlo2
+          rw [hlo3 (m / 2) hk] at this; cases this
+        · rw [if_neg hlm] at hcon
+          have hlopos : 0 < lo := by
+            by_contra h0
+            have : lo = 0 := by omega
+            subst this
+            simp at hcon
+            linarith
+          have hk : lo - 1 < lo := by omega
+          have hcast : ((lo - 1 : Nat) : Rat) = (lo : Rat) - 1 := by
+            rw [Nat.cast_sub (by omega)]; simp
+          have hck : c ≤ half * (2 * ((lo - 1 : Nat) : Rat) + 1) := by rw [hcast]; linarith
+          have hkl := centre_lt (lo - 1) lo hk
+          have : P (lo - 1) = true := hS c _ _ hck hkl.le hSc hlo2
+          rw [hlo3 (lo - 1) hk] at this; cases this
+      · apply le_min _ hdiv1
+        rw [div_le_div_iff_of_pos_right hb]
+        by_contra hcon
+        rw [not_le] at hcon
+        by_cases hlm : levelmax ≤ 18
+        · rw [if_pos hlm] at hcon
+          obtain ⟨m, hm⟩ := hgrid hlm
+          have hm2 : 2 * (hi : Rat) + 2 < (m : Rat) := by
+            have : half * (2 * (hi : Rat) + 2) < half * (m : Rat) := by rw [← hm]; linarith
+            exact lt_of_mul_lt_mul_left this hhpos.le
+          have hm2' : 2 * hi + 2 < m := by exact_mod_cast hm2
+          have hmN : (m : Rat) ≤ 2 * (N : Rat) := by
+            have : half * (m : Rat) ≤ half * (2 * (N : Rat)) := by rw [← hm, ← hbox]; exact hc1
+            exact le_of_mul_le_mul_left this hhpos
+          have hmN' : m ≤ 2 * N := by exact_mod_cast hmN
+          have hk : hi < (m - 1) / 2 := by omega
+          have hkN : (m - 1) / 2 < N := by omega
+          have hck : half * (2 * (((m - 1) / 2 : Nat) : Rat) + 1) ≤ c := by
+            rw [hm]
+            apply mul_le_mul_of_nonneg_left _ hhpos.le
+            have : 2 * ((m - 1) / 2) + 1 ≤ m := by omega
+            exact_mod_cast this
+          have hkl := centre_lt hi ((m - 1) / 2) hk
+          have : P ((m - 1) / 2) = true := hS _ c _ hkl.le hck hhi2 hSc
+          rw [hhi3 ((m - 1) / 2) hk hkN] at this; cases this
+        · rw [if_neg hlm] at hcon
+          have hk : hi < hi + 1 := by omega
+          have hcast : ((hi + 1 : Nat) : Rat) = (hi : Rat) + 1 := by push_cast; ring
+          have hkN : hi + 1 < N := by
+            have h1 : half * (2 * (hi : Rat) + 4) < half * (2 * (N : Rat)) := by rw [← hbox]; linarith
+            have h2 : 2 * (hi : Rat) + 4 < 2 * (N : Rat) := lt_of_mul_lt_mul_left h1 hhpos.le
+            have : 2 * hi + 4 < 2 * N := by exact_mod_cast h2
+            omega
+          have hck : half * (2 * ((hi + 1 : Nat) : Rat) + 1) ≤ c := by rw [hcast]; linarith
+          have hkl := centre_lt hi (hi + 1) hk
+          have : P (hi + 1) = true := hS _ c _ hkl.le hck hhi2 hSc
+          rw [hhi3 (hi + 1) hk hkN] at this; cases this
+
+/-- interval-type predicates (`<`, `<=`, `>`, `>=` against a constant), combined with AND, accept an interval -/
+theorem convex_of_interval_preds (ps : List Loader.Pred)
+    (hops : ∀ p ∈ ps, p.op = "lt" ∨ p.op = "le" ∨ p.op = "gt" ∨ p.op = "ge") :
+    Convex (fun c => ps.all (·.eval c)) := by
+  intro a b c hac hcb ha hb
+  simp only [List.all_eq_true] at ha hb ⊢
+  intro p hp
+  have h1 := ha p hp
+  have h2 := hb p hp
+  rcases hops p hp with h | h | h | h <;> simp only [Loader.Pred.eval, h, decide_eq_true_eq] at h1 h2 ⊢ <;> linarith
+
+
+/-- **C04 (the sampled box is sound)**: for interval-type position functions on one axis (combined with AND) that accept at
+    least one sampled centre, every point `c` of the domain that the functions accept — for outputs no deeper than the
+    sampling level: every accepted point of the finest grid of cell centres and faces, which holds the cell centres of all
+    levels; for deeper outputs: every accepted point whatsoever — lies inside the box handed to `_get_cpu_list`.
+    (Before the fix a73f858 the padding was half a sampled cell for every depth: false for `levelmax > 18`, replayed on the
+    real loader by the deep lane of the C04 check.) -/
+theorem C04_axis_sound (ps : List Loader.Pred)
+    (hops : ∀ p ∈ ps, p.op = "lt" ∨ p.op = "le" ∨ p.op = "gt" ∨ p.op = "ge")
+    (boxSize : Rat) (hb : 0 < boxSize) (levelmax : Nat) (c : Rat) (hc0 : 0 ≤ c) (hc1 : c ≤ boxSize)
+    (hSc : ps.all (·.eval c) = true)
+    (hsample : ∃ i : Nat, i < 2 ^ (min levelmax 18) ∧
+      ps.all (·.eval (boxSize / (2 * ((2 ^ (min levelmax 18) : Nat) : Rat)) * (2 * (i : Rat) + 1))) = true)
+    (hgrid : levelmax ≤ 18 → ∃ m : Nat, c = boxSize / (2 * ((2 ^ (min levelmax 18) : Nat) : Rat)) * (m : Rat)) :
+    (axisBox (fun c => ps.all (·.eval c)) boxSize levelmax).1 ≤ c / boxSize ∧
+    c / boxSize ≤ (axisBox (fun c => ps.all (·.eval c)) boxSize levelmax).2 :=
+  axisBox_sound _ (convex_of_interval_preds ps hops) boxSize hb levelmax c hc0 hc1 hSc hsample hgrid
+
+/-- non-vacuity: `x > 1/4` on a level-2 output of size 1, the cell centre 3/8 -/
+example : (axisBox (fun c => [(⟨"position_x", "gt", 1 / 4⟩ : Loader.Pred)].all (·.eval c)) 1 2).1 ≤ (3 / 8 : Rat) / 1 := by
+  refine (C04_axis_sound [⟨"position_x", "gt", 1 / 4⟩] (by simp) 1 (by norm_num) 2 (3 / 8) (by norm_num) (by norm_num)
+    (by simp [Loader.Pred.eval]; norm_num) ⟨1, by decide, by simp [Loader.Pred.eval]; norm_num⟩ (fun _ => ⟨3, by norm_num⟩)).1
+
 end Osyris.C04
